@@ -294,9 +294,15 @@ def funcconv_recipes(draw, tier):
         r = ["HP", 1]
     else:
         r = ["GL", draw(st.integers(1, 4)), draw(st.integers(1, 6))]
+    if kind == "RG" and "fconv_volume" in C.KNOWN:
+        # recorded finding: only total volume 1 (prod_i n_i d_i = 1) while it is recorded
+        c = draw(st.sampled_from([[1.0], [1.0, 1.0], [2.0, 0.5], [0.5, 2.0]]))
+        c = c[:len(r[1])] if len(r[1]) == len(c) else ([1.0] * len(r[1]))
+        r = ["RG", r[1], [ci / n for ci, n in zip(c, r[1])], False]
     rem = max(1, 64 // C.ssize(r))
     # the operator removes the volume-weighted mean of the whole field: all spaces need volume factors
-    other = draw(C.spaces(0, 2, rem, ("RG", "DOF", "GL")))
+    # (recorded finding 'fconv_multispace': single-space domains only while it is recorded)
+    other = [] if "fconv_multispace" in C.KNOWN else draw(C.spaces(0, 2, rem, ("RG", "DOF", "GL")))
     pos = draw(st.integers(0, len(other)))
     rs = other[:pos] + [r] + other[pos:]
     return {"dom": rs, "space": pos, "omit_space": len(rs) == 1 and draw(st.booleans()),
@@ -333,5 +339,7 @@ def funcconv_check(rec):
         cls.append("unit_volume" if abs(vtot - 1) < 1e-12 else "nonunit_volume")
     else:
         # sphere: only consistency (adjoint, linearity, domains); quadrature-limited definition not checked
-        c = C.verify(op, lambda x: x, rec["seed"], exp_dom=dom, exp_tgt=dom, exp_cap=3, tol=1e-9, check_def=False)
+        # (recorded finding 'fconv_sphere_adjoint': the adjoint relation is not demanded while it is recorded)
+        c = C.verify(op, lambda x: x, rec["seed"], exp_dom=dom, exp_tgt=dom, exp_cap=3, tol=1e-9, check_def=False,
+                     check_adj="fconv_sphere_adjoint" not in C.KNOWN)
     return dict(nontrivial=rec["func"] != "const", classes=cls + c)
